@@ -321,7 +321,8 @@ def run_errors_case(case):
     from zope.interface.exceptions import (BrokenImplementation, BrokenMethodImplementation,
                                            DoesNotImplement, Invalid, MultipleInvalid)
     from zope.interface.verify import verifyClass, verifyObject
-    declares, tentative, attr_state, m1, m2, vclass = case
+    declares, tentative, attr_state, m1, m2, vclass = case[:6]
+    alias = case[6] if len(case) > 6 else 0
 
     class IBase(Interface):
         a = Attribute('an attribute')
@@ -329,13 +330,28 @@ def run_errors_case(case):
         def m1(x):
             pass
 
-    class ISub(IBase):
-        def m2(x, y=None):
-            pass
+    if alias:
+        # elements named in the interface under a key that differs from the description's own __name__: the same description
+        # bound to a second name, a one-word description (Attribute('T') takes 'T' as its name), an inherited method re-exported
+        class ISub(IBase):
+            def m2(x, y=None):
+                pass
+            a2 = IBase['a']
+            t = Attribute('T')
+            m3 = IBase['m1']
+    else:
+        class ISub(IBase):
+            def m2(x, y=None):
+                pass
 
     body = {}
     if attr_state == 0:
         body['a'] = 1
+    # alias 1: all aliased names present; 2: a2 missing; 3: t missing; 4: m3 missing; 5: m3 with a wrong signature
+    if alias and alias != 2:
+        body['a2'] = 2
+    if alias and alias != 3:
+        body['t'] = 3
 
     def put(name, st, good):
         if st == 0:
@@ -359,6 +375,10 @@ def run_errors_case(case):
     else:
         put('m1', m1, lambda self, x: None)
         put('m2', m2, lambda self, x, y=None: None)
+    if alias and alias != 4:
+        good3 = staticmethod(lambda x: None) if vclass == 2 else (lambda self, x: None)
+        bad3 = staticmethod(lambda: None) if vclass == 2 else (lambda self: None)
+        body['m3'] = bad3 if alias == 5 else good3
     K = type('K', (object,), body)
     if declares and vclass == 2:
         from zope.interface import directlyProvides
@@ -370,6 +390,12 @@ def run_errors_case(case):
         expected.append(DoesNotImplement)
     if attr_state == 1 and vclass != 1:
         expected.append(BrokenImplementation)   # verifyClass cannot check plain attributes (docs/verify.rst)
+    if alias in (2, 3) and vclass != 1:
+        expected.append(BrokenImplementation)
+    if alias == 4:
+        expected.append(BrokenImplementation)
+    if alias == 5:
+        expected.append(BrokenMethodImplementation)
     for st in (m1, m2):
         if st == 1:
             expected.append(BrokenImplementation)
@@ -403,10 +429,10 @@ def run_errors_case(case):
 
 
 def make_e_errors(params, part, nparts):
-    def h(declares: int, tentative: int, attr_state: int, m1: int, m2: int, vclass: int):
+    def h(declares: int, tentative: int, attr_state: int, m1: int, m2: int, vclass: int, alias: int):
         c_m1 = pick(m1, 5)
         assume(c_m1 % nparts == part)
-        case = (pick(declares, 2), pick(tentative, 2), pick(attr_state, 2), c_m1, pick(m2, 5), pick(vclass, 3))
+        case = (pick(declares, 2), pick(tentative, 2), pick(attr_state, 2), c_m1, pick(m2, 5), pick(vclass, 3), pick(alias, 6))
         native(run_errors_case, case)
     return h
 
@@ -435,7 +461,7 @@ HARNESSES = [
     Harness('e_errors', make_e_errors, kind='E', impls=('py',),
             tiers=dict(quick=dict(budget_s=60, parts=5), thorough=dict(budget_s=120, parts=5)),
             encoded=_ENC,
-            bounds='every subset of {undeclared, tentative, missing attribute, method missing/wrong signature/non-callable/uninspectable x2 (one inherited)} x verifyObject(instance) / verifyClass / verifyObject(class that directly provides the interface)',
+            bounds='every subset of {undeclared, tentative, missing attribute, method missing/wrong signature/non-callable/uninspectable x2 (one inherited)} x {no aliased elements, elements whose key differs from the description name (second name for one description, one-word Attribute description, re-exported inherited method): all present / one missing / wrong signature} x verifyObject(instance) / verifyClass / verifyObject(class that directly provides the interface)',
             oracle='exact exception type; MultipleInvalid members as a multiset of types',
             assumptions=['verifyClass does not check presence of plain attributes (docs/verify.rst)']),
 ]
